@@ -1,6 +1,6 @@
 use crate::diagnostic_emitter::MosResult;
 use crate::impl_request_handler;
-use crate::lsp::{to_location, LspContext, RequestHandler};
+use crate::lsp::{to_location, to_path, LspContext, RequestHandler};
 use itertools::Itertools;
 use lsp_types::request::{PrepareRenameRequest, Rename};
 use lsp_types::{
@@ -27,7 +27,7 @@ impl RequestHandler<PrepareRenameRequest> for PrepareRenameRequestHandler {
     ) -> MosResult<Option<PrepareRenameResponse>> {
         if let Some(codegen) = &ctx.codegen {
             let codegen = codegen.lock().unwrap();
-            let file_path = &params.text_document.uri.to_file_path().unwrap();
+            let file_path = &to_path(&params.text_document.uri);
 
             let source_line = params.position.line as usize;
             let source_column = params.position.character as usize;
